@@ -87,6 +87,9 @@ func init() {
 				}
 				allHashes := args[1].String() == `hash_tree`
 				result := NewMutableHash()
+				// the mutable hashes that this call has made: only they are descended into and written to. A mutable hash
+				// that arrives as a value (it is nested in the result of an earlier call) is a value like any other hash
+				own := map[*MutableHashValue]bool{result: true}
 				args[0].(*Array).Each(func(entry px.Value) {
 					tpl := entry.(*Array)
 					path := tpl.At(0).(*Array)
@@ -104,9 +107,10 @@ func init() {
 						}
 					} else {
 						r := path.Slice(0, path.Len()-1).Reduce2(result, func(memo, idx px.Value) px.Value {
-							if hv, ok := memo.(*MutableHashValue); ok {
+							if hv, ok := memo.(*MutableHashValue); ok && own[hv] {
 								return hv.Get3(idx, func() px.Value {
 									x := NewMutableHash()
+									own[x] = true
 									hv.Put(idx, x)
 									return x
 								})
@@ -118,7 +122,7 @@ func init() {
 							}
 							return undef
 						})
-						if hr, ok := r.(*MutableHashValue); ok {
+						if hr, ok := r.(*MutableHashValue); ok && own[hr] {
 							if allHashes {
 								if av, ok := value.(*Array); ok {
 									value = IndexedFromArray(av)
